@@ -52,10 +52,12 @@ public:
 	{
 		if (_p == n._p)
 			return *this;
-		unref();
+		SmartObject_* old = _p;
 		_p = n._p;
 		if (_p)
 			++_p->rc;
+		if (old && --old->rc == 0)
+			delete old;
 		return *this;
 	}
 	~SmartObject()
